@@ -95,7 +95,8 @@ CLAIMS = {
              'a step sees the variable iff declared for it or an earlier step, its Variant-Id changes with the value iff it is strongly declared. '
              '(4) SCM specifications through the real parser: git (url, branch/tag/commit/ref, dir, submodules, recursive), url (url, SHA1/SHA256 digest, dir, file name, extract, stripComponents, fileMode) and import (path, dir): '
              'two specifications that differ in one (thorough: up to two) attribute have different checkout, build and package Variant-Ids exactly when their documented relevant tuples differ; sslVerify, shallow, singleBranch, retries '
-             'do not change the id; a second SCM in another directory does.',
+             'do not change the id; a second SCM in another directory does. (5) Tools: all 2^12 memberships of a tool in {checkout,build,package}Tools[Weak] of recipe and class: visibility, weak/strong split, Variant-Id changes with the tool variant iff the step sees the tool. '
+             '(6) Included files: for 1..2 (thorough 3) matched files per side with symbolic contents the include digest recorded from the real IncludeResolver separates what the script receives for $<<p>> and $<\'p\'>; for $<@p@> it does not (known finding: files are hashed concatenated).',
         design_ref='DESIGN.md section 4, C02',
         note='Trusted: SHA-1 injectivity, ASCII strings with lengths < 256, specs of the documented variable rules. Outside: SCM attribute values with blanks, svn/cvs SCMs, YAML loading, include files, tool environment, provided variables of dependencies.'),
     'C03': dict(
@@ -199,7 +200,7 @@ CLAIMS = {
         design_ref='DESIGN.md section 4, C17',
         note='Trusted: specs/subst_ref.py (reference written from doc/manual/configuration.rst), CrossHair/z3 string theory '
              '(counterexamples are replayed in plain CPython). Outside: regex functions match/resubst/matchScm, strings longer than the bound, '
-             'pyparsing text->AST step of IfExpression (22 hand-written skeletons + every expression of nesting depth <= 2 over !, ==, && (quick) / !, ==, !=, <, &&, || (thorough) generated from the documented grammar, well typed or not, '
+             'pyparsing text->AST step of IfExpression (22 hand-written skeletons + 14 (quick) of the expressions of nesting depth <= 2 over !, ==, && (incl. the ill-typed ones) / !, ==, !=, <, &&, || (thorough) generated from the documented grammar, well typed or not, '
              'are parsed by the real grammar; only their literals are symbolic).'),
     'C04': dict(
         engine='X',
